@@ -9,6 +9,13 @@ else
         && echo "setup: hypothesis installed into $here/.deps" \
         || echo "setup: falling back to python3-vt"
 fi
+if PYTHONPATH="$here/.deps" /venv/bin/python -c 'import atheris' >/dev/null 2>&1; then
+    echo "setup: atheris present"
+else
+    /venv/bin/pip install --no-index --find-links /opt/veriftools/wheels --target "$here/.deps" atheris >/dev/null 2>&1 \
+        && echo "setup: atheris installed into $here/.deps" \
+        || echo "setup: atheris not installable (thorough tiers skip the coverage-guided layer)"
+fi
 mkdir -p "$here/evidence" "$here/replay"
 "$here/check" C18 --replay "$here/corpus/C18/custom-property.json" >/dev/null 2>&1
 rc=$?
